@@ -5,7 +5,7 @@ class EnhancedGopherProtocol(rfc1436.GopherProtocol):
     def renderobjinfo(self, entry):
         return (
             entry.gettype()
-            + entry.getname()
+            + entry.getname(entry.getselector(""))
             + "\t"
             + entry.getselector()
             + "\t"
